@@ -274,4 +274,7 @@ def run(P, R, tier):
     c04.validated_return(P, Remap(R, {'C04.GRD.1': 'C03.GRD.4'}, keys=('width:',)), r, sepch, idv, serv)
     # a retired service slot stays while a client still waits for its reply (the reply is what ends the wait)
     c07.storage_audit(P, Remap(R, {'C07.WMC.1': 'C03.WMC.2'}, keys=('slot-release',)))
+    # an awaited bit that does not fit its mask is lost and the soft hold never released
+    rules.narrowing_fields(P, R, 'C03.WID.1', ('modules/iauth_core.c', 'modules/iauth_xquery.c', 'modules/iauth_class.c'))
+    rules.counter_widths(P, R, 'C03.WID.2', recs=('iauth_xquery_service', 'iauth_request'))
     return EXPLANATION, ASSUMPTIONS
